@@ -126,6 +126,11 @@ def make_ann(op, use_numpy=False):
     """Annotation for a history op; ValueError at build is the observation 'VAL'."""
     cat = jaxtyping.Float if op.get("dtypeok", True) else jaxtyping.Int
     at = np.ndarray if use_numpy else Duck
+    if op.get("split") is not None:
+        # the same axes as a nested annotation: the first `split` axes outside, the rest inside
+        toks = op["dims"].split()
+        k = op["split"]
+        return cat[cat[at, " ".join(toks[k:])], " ".join(toks[:k])]
     return cat[at, op["dims"]]
 
 
